@@ -190,6 +190,35 @@ def hVrheExc : Handler
       rotExceptional S r s X Y alpha))
   | _ => none
 
+/-- args.skc.prove.<mode> p q g h le [cg] [pi] r [m] [coins] [peer] [log] [crs] => verdict [sent] -/
+def hSkcProve (mode : String) : Handler
+  | [p, q, g, h, le, cg, pi, r, m, coins, peer, log, crs] => do
+    let p ← pInt p; let q ← pInt q; let g ← pInt g; let h ← pInt h; let le ← pNat le
+    let cg ← pIntList cg; let pi ← pNatList pi; let r ← pInt r; let m ← pIntList m
+    let coins ← pIntList coins; let peer ← pPeerLines peer; let log ← pOracle log; let crs ← pCrs crs
+    let _ ← mkMode mode crs (fun _ => 0)
+    some (withOracle log fun H => showOut (do
+      let P ← mkGrothPub p q g h cg le
+      match mkMode mode crs H with
+      | none => .error .oob
+      | some md => run (done (skcProve md P pi r m)) { peer := peer, coins := coins }))
+  | _ => none
+
+/-- args.skc.verify.<mode> p q g h le [cg] c [f'] [m] [coins] [peer] trunc [log] [crs] => verdict [sent] -/
+def hSkcVerify (mode : String) : Handler
+  | [p, q, g, h, le, cg, c, fp, m, coins, peer, trunc, log, crs] => do
+    let p ← pInt p; let q ← pInt q; let g ← pInt g; let h ← pInt h; let le ← pNat le
+    let cg ← pIntList cg; let c ← pInt c; let fp ← pIntList fp; let m ← pIntList m
+    let coins ← pIntList coins; let peer ← pPeerLines peer; let trunc ← pNat trunc
+    let log ← pOracle log; let crs ← pCrs crs
+    let _ ← mkMode mode crs (fun _ => 0)
+    some (withOracle log fun H => showOut (do
+      let P ← mkGrothPub p q g h cg le
+      match mkMode mode crs H with
+      | none => .error .oob
+      | some md => run (done (skcVerify md P c fp m)) { peer := peer, coins := coins, trunc := trunc = 1 }))
+  | _ => none
+
 def modes : List String := ["interactive", "publiccoin", "noninteractive"]
 
 def handlers : List (String × Handler) :=
@@ -198,7 +227,8 @@ def handlers : List (String × Handler) :=
     ("args.rot.prove." ++ m, hRotProve m), ("args.rot.verify." ++ m, hRotVerify m),
     ("args.groth.prove." ++ m, hGrothProve m), ("args.groth.verify." ++ m, hGrothVerify m),
     ("args.tmcg.hoogh.verify." ++ m, hTmcgHooghVerify m),
-    ("args.tmcg.groth.verify." ++ m, hTmcgGrothVerify m)])
+    ("args.tmcg.groth.verify." ++ m, hTmcgGrothVerify m),
+    ("args.skc.prove." ++ m, hSkcProve m), ("args.skc.verify." ++ m, hSkcVerify m)])
   ++ [("args.hoogh.witness", hHooghWitness), ("args.groth.witness", hGrothWitness),
       ("args.groth.exceptional", hGrothExc), ("args.vrhe.exceptional", hVrheExc)]
 
